@@ -336,6 +336,54 @@ def corpus():
     return cases
 
 
+def lattice(alpha, m, mids=True):
+    '''p-values containing every decision boundary of both corrections for m bins: 0, each level
+    level/(m-k) exactly and one ulp below / above it, a value below the smallest level, one between
+    consecutive levels, one above the overall level, 1 and NaN'''
+    lvl = alpha / 2
+    bounds = [lvl / (m - k) for k in range(m)]              # level/m ... level/1, increasing
+    vals = [0.0, bounds[0] / 2] if mids else [0.0]
+    for k, b in enumerate(bounds):
+        vals += [math.nextafter(b, 0.0), b, math.nextafter(b, 1.0)]
+        if mids and k + 1 < m:
+            vals.append((b + bounds[k + 1]) / 2)
+    vals += [(lvl + 1) / 2, 1.0, NAN]
+    return vals
+
+
+EXH_SHAPES = {1: [[1], [], [1, 1]], 2: [[2], [1, 2], [2, 1]], 3: [[3], [3, 1], [1, 3]], 4: [[4], [2, 2], [2, 2], [4, 1]]}
+
+
+def exhaustive_cases(tier):
+    '''EVERY array of m p-values over lattice(alpha, m) (all orders, hence all tie patterns and all
+    positions), several arrays per stub case; returns (cases, number of arrays, bound text)'''
+    import itertools
+    # (alpha, sizes, with the values strictly between the boundaries)
+    plan = [(0.05, [1, 2, 3], True), (0.3, [1, 2], True)] if tier == 'quick' else \
+        [(0.05, [1, 2, 3], True), (0.01, [1, 2, 3], True), (0.3, [1, 2, 3], True), (0.05, [4], False)]
+    cases, total = [], 0
+    for alpha, sizes, mids in plan:
+        for m in sizes:
+            vals = lattice(alpha, m, mids)
+            shapes = EXH_SHAPES[m]
+            batch, k = [], 0
+            for tup in itertools.product(vals, repeat=m):
+                batch.append(list(tup))
+                total += 1
+                if len(batch) == 8:
+                    shape = shapes[k % len(shapes)]
+                    kind = layouts.KINDS[k % len(layouts.KINDS)]
+                    cases.append(dict(stub_case(alpha, shape, batch, [kind] * len(batch)), exhaustive=True))
+                    batch, k = [], k + 1
+            if batch:
+                cases.append(dict(stub_case(alpha, shapes[k % len(shapes)], batch), exhaustive=True))
+    bound = '; '.join(f'alpha={a}: every array of m in {ms} p-values over the '
+                      + ('full lattice' if mids else 'lattice without the values strictly between boundaries '
+                         '(0, every level and its two float neighbours, a value above the overall level, 1, NaN)')
+                      for a, ms, mids in plan)
+    return cases, total, bound
+
+
 def gen_cases(ctx):
     rng = ctx.rng
     quick = ctx.tier == 'quick'
@@ -343,7 +391,7 @@ def gen_cases(ctx):
     ctx.count('corpus', len(cases))
     cases += layout_cases()
     ctx.count('layout_grid_cases', len(cases) - ctx.dist['corpus'])
-    nrand = 750 if quick else 16000
+    nrand = 500 if quick else 10000
     mmax = 40 if quick else 120
     for _ in range(nrand):
         m = rng.choice([1, 2, 3, 4, 5, 6, 8]) if rng.random() < 0.5 else rng.randint(1, mmax)
@@ -412,6 +460,15 @@ def run(ctx):
                 'in a third of the cases; every p-value / value / error array handed over C- or Fortran-ordered, axis-permuted, strided, negatively strided, read-only or broadcast (55% non-plain) and the documented static methods called directly on them; 15% real Student tests; non-trivial = some array has flagged and '
                 'unflagged bins under Holm-Bonferroni; distinct by case content')
     cases = gen_cases(ctx)
+    exh, n_exh, bound = exhaustive_cases(ctx.tier)
+    ctx.count('exhaustive_cases', len(exh))
+    ctx.count('exhaustive_arrays', n_exh)
+    cases = cases[:ctx.dist['corpus']] + exh + cases[ctx.dist['corpus']:]
+    ctx.rule = (f'EXHAUSTIVE small scope: {bound}, over the lattice {{0, below the smallest level, every level '
+                f'level/(m-k) exactly and one ulp below/above it, a value between consecutive levels, a value above the '
+                f'overall level, 1, NaN}} (all orders, ties and positions; 1-d and 2-d shapes, 7 memory layouts; '
+                f'{n_exh} arrays), Bonferroni and Holm-Bonferroni through evaluate() and the static methods, compared '
+                f'with the model inside Coq and with the sorted-ranks oracle; PLUS ' + ctx.rule)
     done = []
     t_start = time.time()
     for case in cases:
@@ -455,6 +512,11 @@ def run(ctx):
             ctx.mismatch('side condition levels_ok (level/m <= level/(m-k) <= alpha) fails in the model',
                          {'shard_sizes': 'see evidence'})
     ctx.extra['model_cases_compared'] = len(done)
+    exh_done = sum(1 for case, _ in done if case.get('exhaustive'))
+    ctx.extra['exhaustive'] = bool(exh_done == len(exh) and not ctx.corr_broken)
+    ctx.extra['exhaustive_bound'] = bound + ' over lattice(alpha, m) (see rule)'
+    ctx.extra['exhaustive_enumerated_arrays'] = n_exh
+    ctx.extra['exhaustive_cases_compared_with_model'] = exh_done
     ctx.assumptions = ['Python float arithmetic and sorted() are the ground truth of the oracle',
                        'p-values are injected through a TestStudent subclass whose evaluate() returns them '
                        '(public API: TestBonferroni/TestHolmBonferroni(test=...).evaluate())']
